@@ -142,10 +142,14 @@ package network
 //@   at call! SendCommands#1 assert #configs-run-at-the-configuration-or-requested-level acquired == (op.PrivilegeLevel != "" ? op.PrivilegeLevel : "configuration")
 
 // ---- C13: a collapsed config response reports what the aggregate reports -----------------------------------------------------
+// cfgMulti: ghost - the aggregate response SendConfigs returned
+//@ ghost cfgMulti ref local
 //@ func (*Driver).SendConfig [C13]
 //@   requires RI(d.Channel.Q) && d.Channel.PromptSearchDepth >= 0 && graphOK(d)
 //@   at call! SendConfigs#1 assert #the-lines-of-the-config-are-sent-in-order joinS(arg0, "\n") == config && arg1 === opts
 //@   at call! SendConfigs#1 assert [C04] #the-operation-options-with-a-requested-privilege-level-among-them-are-passed-on arg1 === opts
+//@   after call SendConfigs#1 set cfgMulti = result.0
+//@   at return assert #the-collapsed-response-reports-the-failure-of-the-aggregate-itself result.1 == nil ==> result.0 != nil && result.0.Failed == cfgMulti.Failed
 //@   at return assert #the-collapsed-response-is-failed-exactly-when-the-aggregate-is result.1 == nil ==> result.0 == r && r.Failed == m.Failed
 //@   at return assert #its-result-is-the-members-results-joined result.1 == nil ==> r.Result == joinS(rOutputs, "\n") && len(rOutputs) == len(m.Responses)
 //@   loop 1 invariant #each-output-is-its-members-result rangeindex < len(m.Responses) && len(rOutputs) == len(m.Responses) && (forall k int :: 0 <= k && k <= rangeindex ==> rOutputs[k] == m.Responses[k].Result) && isnew(r) && r.Failed == nil
